@@ -342,7 +342,7 @@ func classesOf(s Stream) (classes []string, nontrivial bool, total int) {
 
 func TestVerifC07RoundTrip(t *testing.T) {
 	rec := vt.New("C07", "round-trip",
-		"rapid: schema of 1..4 columns over a 17-type universe (built-in, gob-encoded struct/slice/map, custom codec with per-stream dictionary state), 0..6 batches of 0..300 rows (sizes biased to 0,1,127..129,255..257), destination-size schedules of 1..300, byte source with/without io.ByteReader; oracle: decoded rows == written rows in order then EOF, Reader contract (0<=n<=len, guard rows, earlier frames unchanged); non-trivial = >=2 batches and >=1 row; distinct by hash of the case")
+		"rapid: schema of 1..4 columns over an 18-type universe (built-in, gob-encoded struct/slice/map, a custom codec with per-stream dictionary state, a custom codec that hands its rows to gob and so relies on zeroed destination rows), 0..6 batches of 0..300 rows (sizes biased to 0,1,127..129,255..257), destination-size schedules of 1..300, byte source with/without io.ByteReader; oracle: decoded rows == written rows in order then EOF, Reader contract (0<=n<=len, guard rows, earlier frames unchanged); non-trivial = >=2 batches and >=1 row; distinct by hash of the case")
 	docs, only := vt.Replays(tRound)
 	for _, d := range docs {
 		var s Stream
